@@ -156,11 +156,13 @@ class BA:
                 self._write(interp, n, lambda i: _strided_pick(i, s, st, cnt, lambda t: b, old))
                 return
             interp.throw('TypeError', 'bitarray or int expected for slice assignment')
-        j = self.norm_index(interp, k)
+        if not sym.is_intlike(k):
+            interp.throw('TypeError', 'bitarray indices must be integers')
         if not sym.is_intlike(v):
             interp.throw('TypeError', 'an integer is required')
         if sym.truth(lor(v < 0, v > 1)):
             interp.throw('ValueError', 'bit must be 0 or 1')
+        j = self.norm_index(interp, k)
         b = _int_as_bit(v)
         old = self.bit
         self._write(interp, self.n, lambda i: _sel(sym.eq(i, j), b, old(i)))
